@@ -1,9 +1,129 @@
-(* C16 — placeholder while the proofs are being written *)
+(* C16 — MQTT receive: exact delivery under any segmentation, no out-of-bounds on bad packets.
+   Property theorems only: each is closed by `exact` of a lemma proved in C16/Proofs.v.
+   The model (C16/Model.v) follows the code after the repairs docs/fixes/C16_{recv_offset,publish_lengths,
+   pingresp_length}.diff; `run FIXED` / `run_from FIXED` is that code, the last theorem shows what the
+   unrepaired code does.  `ready s` = a session state between two events: no protocol error so far, the receive
+   buffer holds an incomplete packet (or nothing).  `parse_stream q bytes` = the chunk-free stream parser (the packet
+   loop applied to the whole byte stream at once).  `d_tight = false` = the send queue never had to be compacted
+   while these bytes were handled (it has room for the acknowledgements). *)
 From Coq Require Import List ZArith.
 Import ListNotations.
-From V Require Import Base.Bytes Gen.MqttConsts C16.Model.
+From V Require Import Base.Bytes Gen.MqttConsts C16.Model C16.Proofs.
 Local Open Scope Z_scope.
-Example C16_smoke : rx_of (run FIXED [Start 105; Seg [32;2;0;0]; Seg [48;7;0;3;116;47]; Seg [49;111;110]]) =
-  [RxMsg 0 0 0 4 3 7 2 [116;47;49;111;110]].
-Proof. vm_compute. reflexivity. Qed.
-Print Assumptions C16_smoke.
+
+(* Any segmentation (splitting and coalescing, segments longer than the buffer included) of a byte stream produces
+   the callbacks, protocol errors and reconnects of the chunk-free parser on the unsegmented stream, and the same queue. *)
+Theorem C16_refines_stream_parser : forall segs s q0,
+  ready s -> Forall bytes_ok segs -> qeq (mq s) q0 ->
+  let d := parse_stream q0 (buf s ++ concat segs) in
+  d_tight d = false ->
+  let r := run_from FIXED s (map Seg segs) in
+  rx_of (snd r) = rx_of (d_out d) ++ rx_of_stop (d_stop d) /\ qeq (mq (fst r)) (d_q d) /\
+  (d_stop d = Wait -> ready (fst r) /\ buf (fst r) = d_rest d) /\ (d_stop d <> Wait -> halted (fst r) = true).
+Proof. exact C16_refines_thm. Qed.
+Print Assumptions C16_refines_stream_parser.
+
+Theorem C16_segmentation_independent : forall s segs1 segs2,
+  ready s -> Forall bytes_ok segs1 -> Forall bytes_ok segs2 -> concat segs1 = concat segs2 ->
+  d_tight (parse_stream (mq s) (buf s ++ concat segs1)) = false ->
+  let r1 := run_from FIXED s (map Seg segs1) in let r2 := run_from FIXED s (map Seg segs2) in
+  rx_of (snd r1) = rx_of (snd r2) /\ qeq (mq (fst r1)) (mq (fst r2)) /\ halted (fst r1) = halted (fst r2) /\
+  (halted (fst r1) = false -> buf (fst r1) = buf (fst r2)).
+Proof. exact C16_segmentation_independent_thm. Qed.
+Print Assumptions C16_segmentation_independent.
+
+(* A well-formed PUBLISH (QoS 0/1/2, any topic and payload that fit the buffer) arriving at a packet boundary, cut
+   into segments in any way, is passed to the handler exactly once with exactly its topic and payload; the
+   acknowledgement (PUBACK / PUBREC with its packet id) is queued; the session goes on. *)
+Theorem C16_exact_delivery : forall s segs dup qos retain pid topic payload,
+  ready s -> buf s = [] -> Forall bytes_ok segs ->
+  wf_publish dup qos retain pid topic payload -> accepts (mq s) qos pid ->
+  concat segs = enc_publish dup qos retain pid topic payload ->
+  let toff := pub_toff qos topic payload in
+  let poff := toff + len topic + (if 0 <? qos then 2 else 0) in
+  let r := run_from FIXED s (map Seg segs) in
+  rx_of (snd r) = [RxMsg dup qos retain toff (len topic) poff (len payload) (topic ++ payload)] /\
+  ready (fst r) /\ buf (fst r) = [] /\ qeq (mq (fst r)) (mq s ++ ack_entry qos pid).
+Proof. exact C16_exact_delivery_thm. Qed.
+Print Assumptions C16_exact_delivery.
+
+(* The same inside a longer stream (packets coalesced): the PUBLISH at the head is delivered and parsing goes on
+   with the rest and the acknowledgement in the queue. *)
+Theorem C16_exact_delivery_stream : forall q dup qos retain pid topic payload rest,
+  wf_publish dup qos retain pid topic payload -> bytes_ok rest -> accepts q qos pid ->
+  let toff := pub_toff qos topic payload in
+  let poff := toff + len topic + (if 0 <? qos then 2 else 0) in
+  let d := parse_stream q (enc_publish dup qos retain pid topic payload ++ rest) in
+  let d' := parse_stream (q ++ ack_entry qos pid) rest in
+  rx_of (d_out d) = RxMsg dup qos retain toff (len topic) poff (len payload) (topic ++ payload) :: rx_of (d_out d') /\
+  d_q d = d_q d' /\ d_rest d = d_rest d' /\ d_stop d = d_stop d' /\ d_tight d = d_tight d'.
+Proof. exact C16_exact_delivery_stream_thm. Qed.
+Print Assumptions C16_exact_delivery_stream.
+
+(* Every unsent message of the queue (the acknowledgements queued while receiving) goes to the wire at the end of
+   the same mqtt_sync, with its own packet id. *)
+Theorem C16_acks_sent : forall s, halted (fst (sync FIXED s)) = false ->
+  let d := drain (S (length (buf s))) FIXED (mq s) (buf s) in
+  snd (sync FIXED s) = d_out d ++ map sent_out (filter unsent (d_q d)) /\
+  forallb (fun e => negb (unsent e)) (mq (fst (sync FIXED s))) = true.
+Proof. exact C16_acks_sent_thm. Qed.
+Print Assumptions C16_acks_sent.
+
+(* A complete malformed packet at a packet boundary (reserved type, type a broker never sends, wrong flags, QoS 3,
+   impossible lengths), cut into segments in any way: protocol error and reconnect, no callback, session over. *)
+Theorem C16_malformed_errors : forall s segs ct fl body rest,
+  ready s -> buf s = [] -> Forall bytes_ok segs ->
+  0 <= ct < 16 -> 0 <= fl < 16 -> bytes_ok body ->
+  1 + len (enc_rl (len body)) + len body <= RECVBUF -> malformedb ct fl body = true ->
+  concat segs = (ct * 16 + fl) :: enc_rl (len body) ++ body ++ rest ->
+  let r := run_from FIXED s (map Seg segs) in
+  (exists e, rx_of (snd r) = [RxErr e; RxReconnect]) /\ halted (fst r) = true.
+Proof. exact C16_malformed_errors_thm. Qed.
+Print Assumptions C16_malformed_errors.
+
+Theorem C16_long_length_errors : forall q b0 x1 x2 x3 x4 rest,
+  128 <= x1 -> 128 <= x2 -> 128 <= x3 -> 128 <= x4 ->
+  let d := parse_stream q (b0 :: x1 :: x2 :: x3 :: x4 :: rest) in
+  d_out d = [] /\ d_stop d = Failed E_INVALID_REMAINING_LENGTH /\ d_q d = q.
+Proof. exact C16_long_length_thm. Qed.
+Print Assumptions C16_long_length_errors.
+
+(* acknowledgement of something never sent *)
+Theorem C16_unknown_ack_errors : forall q r, outstanding q r = false -> handle r q = (q, false, Some E_ACK_OF_UNKNOWN, false).
+Proof. exact C16_unknown_ack_thm. Qed.
+Print Assumptions C16_unknown_ack_errors.
+
+(* For every history of events (segments of any size and content, ticks, device requests): every callback gets
+   slices inside the bytes received so far (inside the receive buffer), with the lengths it announces; there is no
+   access outside the buffer (no Fault). *)
+Theorem C16_slices_inside_received_and_safe : forall evs, Forall ev_ok evs -> Forall out_ok (run FIXED evs).
+Proof. exact C16_safe_thm. Qed.
+Print Assumptions C16_slices_inside_received_and_safe.
+
+(* the unrepaired code *)
+Theorem C16_old_code_refuted :
+  rx_of (run OLD_RECV w_split) = [RxErr E_CONTROL_INVALID_FLAGS; RxReconnect] /\
+  rx_of (run FIXED w_split) = [RxMsg 0 0 0 4 33 37 1 (w_topic ++ [49])] /\
+  rx_of (run OLD_PUBLEN w_toplen) = [RxMsg 0 0 0 4 1000 1004 4294966349 (repeat 65 53); RxFault] /\
+  rx_of (run FIXED w_toplen) = [RxErr E_MALFORMED_RESPONSE; RxReconnect] /\
+  rx_of (run OLD_PUBLEN w_qos3) = [RxMsg 0 3 0 4 1 7 1 [97; 120]] /\
+  rx_of (run FIXED w_qos3) = [RxErr E_PUBLISH_FORBIDDEN_QOS; RxReconnect] /\
+  rx_of (run OLD_PUBLEN w_short) = [RxErr E_MALFORMED_RESPONSE; RxReconnect] /\
+  rx_of (run FIXED w_short) = [RxMsg 0 0 0 4 1 5 0 [97]] /\
+  rx_of (run OLD_PINGLEN w_ping) = [RxMsg 0 0 0 4 1 5 1 [97; 98]] /\
+  rx_of (run FIXED w_ping) = [RxErr E_MALFORMED_RESPONSE; RxReconnect].
+Proof. exact C16_old_code_refuted_thm. Qed.
+Print Assumptions C16_old_code_refuted.
+
+(* non-vacuity: the state after session set-up and CONNACK is `ready` with an empty buffer and a queue that accepts
+   acknowledgements; a QoS 1 PUBLISH cut into three segments is delivered and acknowledged on the wire *)
+Example C16_nonvacuous :
+  let s := fst (run_from FIXED (fst (boot FIXED 105)) [Seg [32;2;0;0]]) in
+  let p := enc_publish 0 1 0 7 [116;47;49] [111;110] in
+  buf s = [] /\ halted s = false /\ unpack FIXED (buf s) = UInc /\
+  (4 <=? currsz (mq s)) = true /\
+  d_tight (parse_stream (mq s) p) = false /\
+  snd (run_from FIXED s [Seg (firstn 4 p); Seg (firstn 3 (skipn 4 p)); Seg (skipn 7 p)]) =
+    [Msg 0 1 0 4 3 9 2 11 [116;47;49;111;110]; Sent 4 [64;2;0;7]].
+Proof. vm_compute. repeat split; reflexivity. Qed.
+Print Assumptions C16_nonvacuous.
